@@ -235,6 +235,80 @@ pub fn run(cli: &Cli, rep: &Report) {
         run_phase(rep, cli, "dict_sweep", 0, dcases.len(), &|i| Some(dcases[i].clone()));
     }
 
+    // Phase 3d: long carry runs at the LZMA2 chunk limit. A range coder byte string that ends in a run of FF bytes is a
+    // pending carry of that length; inputs whose encoding contains such a run where the compressed chunk limit (64 KiB - 26)
+    // falls are obtained by *decoding* a crafted byte string: the first K payload bytes of a literal-heavy chunk, then 80
+    // FF bytes, then noise, through the raw LZMA decoder. Re-encoding what comes out reproduces the run.
+    {
+        let mut ccases: Vec<Case> = vec![];
+        let o = Opts { dict: 1 << 20, lc: 3, lp: 0, pb: 2, fast: true, bt4: false, nice: 128, depth: 8 };
+        // Whether re-encoding reproduces the run depends on the symbols the FF bytes decode to, which is different for
+        // every base stream: many base streams (seeds) are tried, the mechanism counter below says how many of the derived
+        // inputs made the encoder reproduce the crafted stream up to the run.
+        let n_seeds: u64 = if thorough { 96 } else { 48 };
+        let mut with_run = 0u64;
+        for seed in 0..n_seeds {
+            let mut s = seed.wrapping_mul(0x9E37_79B9_7F4A_7C15) | 1;
+            let mut next = move || {
+                s ^= s << 13;
+                s ^= s >> 7;
+                s ^= s << 17;
+                s
+            };
+            let base: Vec<u8> = (0..80_000).map(|_| (next() >> 32) as u8 & 0x7F).collect();
+            let Ok(Ok(c)) = mc_core::run::catch(|| crate::codec::encode(&Container::Lzma2, &o, &base, &[])) else { continue };
+            if c.len() < 70_000 || c[0] < 0xE0 {
+                continue;
+            }
+            let csize = (((c[3] as usize) << 8) | c[4] as usize) + 1;
+            let payload = &c[6..6 + csize];
+            let k = 65_500usize;
+            if k > payload.len() {
+                continue;
+            }
+            let mut stream = payload[..k].to_vec();
+            stream.extend(std::iter::repeat(0xFF).take(80));
+            stream.extend((0..64).map(|_| (next() >> 32) as u8));
+            let derived = mc_core::run::catch(|| {
+                let mut out = vec![];
+                if let Ok(mut rd) = lzma_rust2::LZMAReader::new(stream.as_slice(), u64::MAX, o.lc, o.lp, o.pb, o.dict, None) {
+                    let mut b = [0u8; 1];
+                    while let Ok(1) = std::io::Read::read(&mut rd, &mut b) {
+                        out.push(b[0]);
+                        if out.len() > 200_000 {
+                            break;
+                        }
+                    }
+                }
+                out
+            })
+            .unwrap_or_default();
+            if derived.len() < 60_000 {
+                continue;
+            }
+            // did the encoder reproduce the crafted stream? (its first chunk then begins with the same 65 480 payload bytes,
+            // and the run of FF bytes that follows them in the crafted stream is the carry it has to hold at the chunk limit)
+            if let Ok(Ok(c2)) = mc_core::run::catch(|| crate::codec::encode(&Container::Lzma2, &o, &derived, &[])) {
+                if c2.len() > 6 + 65_480 && c2[6..6 + 65_480] == payload[..65_480] {
+                    with_run += 1;
+                }
+            }
+            let input = Input::Named(format!("carry-run-seed{seed}-k{k}"), std::sync::Arc::new(derived));
+            for cont in [Container::Lzma2, Container::Lzma2Chunk(1)] {
+                ccases.push(Case { cont, opts: o, input: input.clone(), ops: vec![], bias: 0 });
+            }
+        }
+        rep.add("mech.carry_run_inputs_reproduced", with_run);
+        if with_run == 0 && cli.only.is_none() {
+            rep.machinery_error("vacuous: no derived input made the encoder hold a long carry");
+        }
+        rep.extra("carry_runs", json!({"cases": ccases.len()}));
+        if ccases.is_empty() && cli.only.is_none() {
+            rep.machinery_error("vacuous: no carry-run input could be derived");
+        }
+        run_phase(rep, cli, "carry_runs", 0, ccases.len(), &|i| Some(ccases[i].clone()));
+    }
+
     // Phase 4: renormalisation through a biased start position
     let bias_inputs: Vec<Input> = {
         let mut v: Vec<Input> = vec![];
